@@ -663,6 +663,497 @@ fn gen_c02(g: &mut Gen, keys: &Keys, id: usize) -> Vec<String> {
     cg.out
 }
 
+
+// ------------------------------------------------------------------------------------------ C07
+
+#[derive(Clone)]
+enum PBody {
+    User(u64, bool),
+    Right(u64, bool, bool),
+    Name(u64),
+    #[allow(dead_code)]
+    Absent,
+}
+#[derive(Clone)]
+struct PRow {
+    id: u64,
+    ent: u64,
+    c: i64,
+    m: i64,
+    by: u64,
+    body: PBody,
+    sig: bool,
+}
+#[derive(Clone, Default)]
+struct LDef {
+    rows: Vec<u64>,
+    edges: Vec<u64>,
+}
+#[derive(Clone, Default)]
+struct GDef {
+    id: u64,
+    rights: LDef,
+    users: LDef,
+    uadmins: LDef,
+}
+#[derive(Clone, Default)]
+struct RDef {
+    room: u64,
+    admins: LDef,
+    auths: Vec<GDef>,
+    authedges: Vec<u64>,
+}
+
+struct C07Gen<'a> {
+    g: &'a mut Gen,
+    out: Vec<String>,
+    next_row: u64,
+    next_edge: u64,
+    rows: HashMap<u64, PRow>,
+}
+
+fn join_u(v: &[u64]) -> String {
+    v.iter().map(|x| x.to_string()).collect::<Vec<_>>().join(",")
+}
+
+impl<'a> C07Gen<'a> {
+    fn srow(&mut self, r: &PRow) {
+        let body = match &r.body {
+            PBody::User(k, en) => format!("body=user k={} en={}", k, *en as u8),
+            PBody::Right(e, ms, ma) => format!("body=right e={} ms={} ma={}", e, *ms as u8, *ma as u8),
+            PBody::Name(v) => format!("body=name v={}", v),
+            PBody::Absent => "body=none".to_string(),
+        };
+        self.out.push(format!(
+            "srow id={} ent={} c={} m={} by={} {}{}",
+            r.id,
+            r.ent,
+            r.c,
+            r.m,
+            r.by,
+            body,
+            if r.sig { "" } else { " sig=0" }
+        ));
+        self.rows.insert(r.id, r.clone());
+    }
+    fn new_row(&mut self, ent: u64, t: i64, by: u64, body: PBody) -> u64 {
+        self.next_row += 1;
+        let r = PRow { id: self.next_row, ent, c: t, m: t, by, body, sig: true };
+        self.srow(&r);
+        r.id
+    }
+    #[allow(clippy::too_many_arguments)]
+    fn new_edge(&mut self, src: u64, se: u64, l: u64, dst: u64, c: i64, by: u64, sig: bool) -> u64 {
+        self.next_edge += 1;
+        self.out.push(format!(
+            "sedge n={} src={} se={} l={} dst={} c={} by={}{}",
+            self.next_edge,
+            src,
+            se,
+            l,
+            dst,
+            c,
+            by,
+            if sig { "" } else { " sig=0" }
+        ));
+        self.next_edge
+    }
+    /// an entry with its honest placing reference
+    #[allow(clippy::too_many_arguments)]
+    fn entry(&mut self, l: &mut LDef, owner: u64, owner_ent: u64, label: u64, ent: u64, t: i64, by: u64, body: PBody) -> u64 {
+        let id = self.new_row(ent, t, by, body);
+        let e = self.new_edge(owner, owner_ent, label, id, t, by, true);
+        l.rows.push(id);
+        l.edges.push(e);
+        id
+    }
+    fn emit(&mut self, d: &RDef) {
+        self.out.push(format!(
+            "cand room={} admins={} aedges={} auths={} authedges={}",
+            d.room,
+            join_u(&d.admins.rows),
+            join_u(&d.admins.edges),
+            join_u(&d.auths.iter().map(|a| a.id).collect::<Vec<_>>()),
+            join_u(&d.authedges)
+        ));
+        for a in &d.auths {
+            self.out.push(format!(
+                "cauth room={} id={} rights={} redges={} users={} uedges={} uadmins={} uaedges={}",
+                d.room,
+                a.id,
+                join_u(&a.rights.rows),
+                join_u(&a.rights.edges),
+                join_u(&a.users.rows),
+                join_u(&a.users.edges),
+                join_u(&a.uadmins.rows),
+                join_u(&a.uadmins.edges)
+            ));
+        }
+    }
+    fn group(&mut self, d: &mut RDef, t: i64, by: u64, with_users_by: Option<u64>) -> usize {
+        let gid = self.new_row(101, t, by, PBody::Name(1));
+        let e = self.new_edge(d.room, 100, 33, gid, t, by, true);
+        d.authedges.push(e);
+        let mut gd = GDef { id: gid, ..Default::default() };
+        let nr = 1 + self.g.below(2);
+        for _ in 0..nr {
+            let ent = *self.g.pick(&[1u64, 2, 0]);
+            let (ms, ma) = *self.g.pick(&[(true, false), (true, true), (false, false)]);
+            self.entry(&mut gd.rights, gid, 101, 33, 103, t, by, PBody::Right(ent, ms, ma));
+        }
+        if self.g.chance(2, 3) {
+            let k = *self.g.pick(&[3u64, 5]);
+            self.entry(&mut gd.uadmins, gid, 101, 35, 102, t, by, PBody::User(k, true));
+        }
+        if let Some(uby) = with_users_by {
+            let nu = 1 + self.g.below(2);
+            for _ in 0..nu {
+                let k = 1 + self.g.below(3) as u64;
+                self.entry(&mut gd.users, gid, 101, 34, 102, t, uby, PBody::User(k, true));
+            }
+        }
+        d.auths.push(gd);
+        d.auths.len() - 1
+    }
+}
+
+const PROBE_DATES: &str = "99,100,150,200,250,300,400,500,600,800";
+
+fn gen_c07(g: &mut Gen, id: usize) -> Vec<String> {
+    let mut cg = C07Gen { g, out: vec![format!("case id={}", id)], next_row: 100, next_edge: 0, rows: HashMap::new() };
+    // ---- the room as its admin (key 0) created it
+    let room = 10u64;
+    cg.srow(&PRow { id: room, ent: 100, c: 100, m: 100, by: 0, body: PBody::Name(0), sig: true });
+    let mut d = RDef { room, ..Default::default() };
+    let mut adm = std::mem::take(&mut d.admins);
+    cg.entry(&mut adm, room, 100, 32, 102, 100, 0, PBody::User(0, true));
+    let key4_admin = cg.g.chance(1, 2);
+    if key4_admin {
+        cg.entry(&mut adm, room, 100, 32, 102, 200, 0, PBody::User(4, true));
+        if cg.g.chance(1, 2) {
+            cg.entry(&mut adm, room, 100, 32, 102, 400, 0, PBody::User(4, false));
+        }
+    }
+    d.admins = adm;
+    let ng = 1 + cg.g.below(2);
+    for _ in 0..ng {
+        cg.group(&mut d, 100, 0, Some(0));
+    }
+    cg.emit(&d);
+    cg.out.push(format!("install room={}", room));
+    cg.out.push("dump".to_string());
+    cg.out.push(format!("probe room={} dates={}", room, PROBE_DATES));
+    // ---- a second room of the same admin: material for replays
+    let mut other_rows: Vec<u64> = vec![];
+    if cg.g.chance(1, 2) {
+        let z = 40u64;
+        cg.srow(&PRow { id: z, ent: 100, c: 100, m: 100, by: 0, body: PBody::Name(0), sig: true });
+        let mut dz = RDef { room: z, ..Default::default() };
+        let mut az = LDef::default();
+        cg.entry(&mut az, z, 100, 32, 102, 100, 0, PBody::User(0, true));
+        let body = PBody::User(*cg.g.pick(&[2u64, 6]), true);
+        let u = cg.entry(&mut az, z, 100, 32, 102, 300, 0, body);
+        other_rows.push(u);
+        dz.admins = az;
+        let gi = cg.group(&mut dz, 100, 0, Some(0));
+        other_rows.extend(dz.auths[gi].users.rows.iter());
+        other_rows.extend(dz.auths[gi].rights.rows.iter());
+        cg.emit(&dz);
+        cg.out.push(format!("install room={}", z));
+        cg.out.push("dump".to_string());
+    }
+    // ---- candidates received from peers
+    let rounds = 1 + cg.g.below(4);
+    for _ in 0..rounds {
+        let mut c = d.clone();
+        let kind = cg.g.weighted(&[6, 5, 4, 4, 4, 3, 5, 4, 4, 3, 3, 3, 3, 3, 3, 3, 3, 2, 2, 3]);
+        let t = *cg.g.pick(&[150i64, 250, 300, 350, 500, 600]);
+        let gi = cg.g.below(c.auths.len());
+        let gid = c.auths[gi].id;
+        let mut honest = false;
+        match kind {
+            // a user added by an admin / by a user admin of the group
+            0 => {
+                let by = if cg.g.chance(1, 2) { 0 } else { *cg.g.pick(&[3u64, 5, 4]) };
+                let mut l = std::mem::take(&mut c.auths[gi].users);
+                let body = PBody::User(1 + cg.g.below(3) as u64, cg.g.chance(3, 4));
+                cg.entry(&mut l, gid, 101, 34, 102, t, by, body);
+                c.auths[gi].users = l;
+                honest = by == 0;
+            }
+            // a new admin / an admin disabled
+            1 => {
+                let by = *cg.g.pick(&[0u64, 0, 4]);
+                let mut l = std::mem::take(&mut c.admins);
+                let body = PBody::User(*cg.g.pick(&[4u64, 1, 0]), cg.g.chance(2, 3));
+                cg.entry(&mut l, room, 100, 32, 102, t, by, body);
+                c.admins = l;
+                honest = by == 0;
+            }
+            // a right replaced, a user admin added
+            2 => {
+                let by = *cg.g.pick(&[0u64, 0, 4, 3]);
+                if cg.g.chance(1, 2) {
+                    let mut l = std::mem::take(&mut c.auths[gi].rights);
+                    let body = PBody::Right(*cg.g.pick(&[1u64, 2, 0]), cg.g.chance(1, 2), cg.g.chance(1, 3));
+                    cg.entry(&mut l, gid, 101, 33, 103, t, by, body);
+                    c.auths[gi].rights = l;
+                } else {
+                    let mut l = std::mem::take(&mut c.auths[gi].uadmins);
+                    let body = PBody::User(*cg.g.pick(&[3u64, 5, 2]), cg.g.chance(3, 4));
+                    cg.entry(&mut l, gid, 101, 35, 102, t, by, body);
+                    c.auths[gi].uadmins = l;
+                }
+                honest = by == 0;
+            }
+            // a new group: by an admin without users; with users signed by the admin (third rule);
+            // with users signed by its own user admin; with a user-admin entry signed by anybody
+            3 => {
+                let variant = cg.g.below(4);
+                let by = if variant == 3 { *cg.g.pick(&[0u64, 6]) } else { 0 };
+                let gi2 = cg.group(&mut c, t, by, if variant == 1 { Some(0) } else { None });
+                let g2 = c.auths[gi2].id;
+                if variant >= 2 {
+                    let mut ua = std::mem::take(&mut c.auths[gi2].uadmins);
+                    let signer = *cg.g.pick(&[6u64, 7, 2]);
+                    cg.entry(&mut ua, g2, 101, 35, 102, t, signer, PBody::User(signer, true));
+                    c.auths[gi2].uadmins = ua;
+                    let mut us = std::mem::take(&mut c.auths[gi2].users);
+                    cg.entry(&mut us, g2, 101, 34, 102, t, signer, PBody::User(signer, true));
+                    c.auths[gi2].users = us;
+                }
+                honest = variant == 0;
+            }
+            // entry by somebody who is not entitled (outsider, plain user, disabled admin, too early)
+            4 => {
+                let by = *cg.g.pick(&[6u64, 7, 1, 2, 4]);
+                let tt = if cg.g.chance(1, 3) { 99 } else { t };
+                match cg.g.below(3) {
+                    0 => {
+                        let mut l = std::mem::take(&mut c.admins);
+                        cg.entry(&mut l, room, 100, 32, 102, tt, by, PBody::User(by, true));
+                        c.admins = l;
+                    }
+                    1 => {
+                        let mut l = std::mem::take(&mut c.auths[gi].rights);
+                        cg.entry(&mut l, gid, 101, 33, 103, tt, by, PBody::Right(0, true, true));
+                        c.auths[gi].rights = l;
+                    }
+                    _ => {
+                        let mut l = std::mem::take(&mut c.auths[gi].uadmins);
+                        cg.entry(&mut l, gid, 101, 35, 102, tt, by, PBody::User(by, true));
+                        c.auths[gi].uadmins = l;
+                    }
+                }
+            }
+            // cross-list replay: an entry the admin signed for one list is placed in another one,
+            // with a placing reference signed by the relaying peer
+            5 | 6 => {
+                let mut src: Vec<u64> = vec![];
+                src.extend(c.admins.rows.iter());
+                for a in &c.auths {
+                    src.extend(a.users.rows.iter());
+                    src.extend(a.uadmins.rows.iter());
+                }
+                let pick = *cg.g.pick(&src);
+                let row = cg.rows.get(&pick).cloned().unwrap();
+                let signer = *cg.g.pick(&[6u64, 2, 1]);
+                match cg.g.below(3) {
+                    0 if !c.admins.rows.contains(&pick) => {
+                        let e = cg.new_edge(room, 100, 32, pick, row.m, signer, true);
+                        c.admins.rows.push(pick);
+                        c.admins.edges.push(e);
+                    }
+                    1 if !c.auths[gi].uadmins.rows.contains(&pick) => {
+                        let e = cg.new_edge(gid, 101, 35, pick, row.m, signer, true);
+                        c.auths[gi].uadmins.rows.push(pick);
+                        c.auths[gi].uadmins.edges.push(e);
+                    }
+                    _ if !c.auths[gi].users.rows.contains(&pick) => {
+                        let e = cg.new_edge(gid, 101, 34, pick, row.m, signer, true);
+                        c.auths[gi].users.rows.push(pick);
+                        c.auths[gi].users.edges.push(e);
+                    }
+                    _ => {}
+                }
+            }
+            // cross-room replay: an entry of the other room of the same admin
+            7 if !other_rows.is_empty() => {
+                let pick = *cg.g.pick(&other_rows);
+                let row = cg.rows.get(&pick).cloned().unwrap();
+                let signer = *cg.g.pick(&[6u64, 2]);
+                match row.body {
+                    PBody::Right(..) => {
+                        let e = cg.new_edge(gid, 101, 33, pick, row.m, signer, true);
+                        c.auths[gi].rights.rows.push(pick);
+                        c.auths[gi].rights.edges.push(e);
+                    }
+                    _ => {
+                        if cg.g.chance(1, 2) {
+                            let e = cg.new_edge(room, 100, 32, pick, row.m, signer, true);
+                            c.admins.rows.push(pick);
+                            c.admins.edges.push(e);
+                        } else {
+                            let e = cg.new_edge(gid, 101, 34, pick, row.m, signer, true);
+                            c.auths[gi].users.rows.push(pick);
+                            c.auths[gi].users.edges.push(e);
+                        }
+                    }
+                }
+            }
+            // honest new entry whose placing reference is wrong (label, source entity, author)
+            8 => {
+                let uk = 1 + cg.g.below(3) as u64;
+                let id = cg.new_row(102, t, 0, PBody::User(uk, true));
+                let (l, se, by) = *cg.g.pick(&[(35u64, 101u64, 0u64), (34, 100, 0), (34, 101, 6), (99, 101, 0), (34, 1, 0)]);
+                let e = cg.new_edge(gid, se, l, id, t, by, true);
+                c.auths[gi].users.rows.push(id);
+                c.auths[gi].users.edges.push(e);
+            }
+            // omissions (a peer that holds an older or a partial definition)
+            9 => {
+                if cg.g.chance(1, 2) && c.admins.rows.len() > 1 {
+                    c.admins.rows.pop();
+                    c.admins.edges.pop();
+                } else if !c.auths[gi].users.rows.is_empty() {
+                    c.auths[gi].users.rows.remove(0);
+                    c.auths[gi].users.edges.remove(0);
+                } else if c.auths.len() > 1 {
+                    c.auths.pop();
+                    c.authedges.pop();
+                }
+                let mut l = std::mem::take(&mut c.auths[0].users);
+                let g0 = c.auths[0].id;
+                cg.entry(&mut l, g0, 101, 34, 102, t, 0, PBody::User(2, true));
+                c.auths[0].users = l;
+                honest = true;
+            }
+            // an existing entry altered (same id, other content)
+            10 => {
+                let mut src: Vec<u64> = c.admins.rows.clone();
+                src.extend(c.auths[gi].users.rows.iter());
+                src.extend(c.auths[gi].rights.rows.iter());
+                let pick = *cg.g.pick(&src);
+                let mut row = cg.rows.get(&pick).cloned().unwrap();
+                row.by = *cg.g.pick(&[0u64, 6]);
+                row.body = match row.body {
+                    PBody::User(k, en) => PBody::User(k, !en),
+                    PBody::Right(e, ms, _) => PBody::Right(e, ms, true),
+                    b => b,
+                };
+                cg.srow(&row);
+            }
+            // tampered row or reference
+            11 => {
+                if cg.g.chance(1, 2) {
+                    let id = cg.new_row(102, t, 0, PBody::User(1, true));
+                    let mut row = cg.rows.get(&id).cloned().unwrap();
+                    row.sig = false;
+                    cg.srow(&row);
+                    let e = cg.new_edge(gid, 101, 34, id, t, 0, true);
+                    c.auths[gi].users.rows.push(id);
+                    c.auths[gi].users.edges.push(e);
+                } else {
+                    let id = cg.new_row(102, t, 0, PBody::User(1, true));
+                    let e = cg.new_edge(gid, 101, 34, id, t, 0, false);
+                    c.auths[gi].users.rows.push(id);
+                    c.auths[gi].users.edges.push(e);
+                }
+            }
+            // shape errors: a reference too many / too few, wrong source, reference to a missing entry
+            12 => match cg.g.below(4) {
+                0 => {
+                    let e = cg.new_edge(gid, 101, 34, 999, t, 0, true);
+                    c.auths[gi].users.edges.push(e);
+                }
+                1 => {
+                    let id = cg.new_row(102, t, 0, PBody::User(1, true));
+                    c.auths[gi].users.rows.push(id);
+                }
+                2 => {
+                    let id = cg.new_row(102, t, 0, PBody::User(1, true));
+                    let e = cg.new_edge(room, 101, 34, id, t, 0, true);
+                    c.auths[gi].users.rows.push(id);
+                    c.auths[gi].users.edges.push(e);
+                }
+                _ => {
+                    let id = cg.new_row(102, t, 0, PBody::User(1, true));
+                    let e = cg.new_edge(gid, 101, 34, 998, t, 0, true);
+                    c.auths[gi].users.rows.push(id);
+                    c.auths[gi].users.edges.push(e);
+                }
+            },
+            // an entry listed twice; an entry older than the last one of its key
+            13 => {
+                if cg.g.chance(1, 2) {
+                    let mut l = std::mem::take(&mut c.auths[gi].users);
+                    let id = cg.entry(&mut l, gid, 101, 34, 102, t, 0, PBody::User(1, true));
+                    let e = cg.new_edge(gid, 101, 34, id, t, 0, true);
+                    l.rows.push(id);
+                    l.edges.push(e);
+                    c.auths[gi].users = l;
+                } else {
+                    let mut l = std::mem::take(&mut c.admins);
+                    cg.entry(&mut l, room, 100, 32, 102, 50, 0, PBody::User(0, true));
+                    c.admins = l;
+                }
+            }
+            // the room row replaced (other author, other entity, other date), plus an honest entry so that there is an update
+            14 | 15 => {
+                let (ent, by, m) = *cg.g.pick(&[(100u64, 6u64, 700i64), (1, 6, 700), (100, 0, 700), (100, 6, 50), (2, 0, 100)]);
+                cg.srow(&PRow { id: room, ent, c: 100, m, by, body: PBody::Name(0), sig: true });
+                let mut l = std::mem::take(&mut c.auths[gi].users);
+                cg.entry(&mut l, gid, 101, 34, 102, t, 0, PBody::User(2, true));
+                c.auths[gi].users = l;
+            }
+            // a newer group row, by an admin or not
+            16 => {
+                let by = *cg.g.pick(&[0u64, 6, 3]);
+                let m = *cg.g.pick(&[700i64, 100, 50]);
+                cg.srow(&PRow { id: gid, ent: 101, c: 100, m, by, body: PBody::Name(2), sig: true });
+                honest = by == 0 && m == 700;
+            }
+            // two entries of one key at the same date, then the same two in the other order
+            17 => {
+                let mut l = std::mem::take(&mut c.auths[gi].users);
+                let k = 1 + cg.g.below(3) as u64;
+                cg.entry(&mut l, gid, 101, 34, 102, t, 0, PBody::User(k, true));
+                cg.entry(&mut l, gid, 101, 34, 102, t, 0, PBody::User(k, false));
+                c.auths[gi].users = l;
+                honest = true;
+            }
+            // the stored entries in another order
+            18 => {
+                c.auths[gi].users.rows.reverse();
+                c.auths[gi].users.edges.reverse();
+                c.admins.rows.reverse();
+                let mut l = std::mem::take(&mut c.auths[gi].users);
+                cg.entry(&mut l, gid, 101, 34, 102, t, 0, PBody::User(3, true));
+                c.auths[gi].users = l;
+                honest = true;
+            }
+            // nothing new at all (re-sent definition)
+            _ => {}
+        }
+        cg.emit(&c);
+        cg.out.push(format!("install room={}", room));
+        cg.out.push("dump".to_string());
+        cg.out.push(format!("probe room={} dates={}", room, PROBE_DATES));
+        if honest || cg.g.chance(1, 4) {
+            d = c;
+        } else {
+            // restore the pool rows this round may have overwritten
+            let r0 = PRow { id: room, ent: 100, c: 100, m: 100, by: 0, body: PBody::Name(0), sig: true };
+            if let Some(r) = cg.rows.get(&room) {
+                if r.by != 0 || r.ent != 100 || r.m != 100 {
+                    cg.srow(&r0);
+                }
+            }
+        }
+    }
+    cg.out
+}
+
 pub fn generate(prop: &str, seed: u64, n: usize, out: &str) {
     let mut g = Gen::new(seed);
     let keys = Keys::new();
@@ -670,6 +1161,7 @@ pub fn generate(prop: &str, seed: u64, n: usize, out: &str) {
     for id in 0..n {
         let lines = match prop {
             "C02" => gen_c02(&mut g, &keys, id),
+            "C07" => gen_c07(&mut g, id),
             _ => {
                 eprintln!("unknown property {}", prop);
                 std::process::exit(2);
